@@ -285,4 +285,8 @@ _ins("C06", "text", "Tied to the code by",
      "extract_complete); one unresolvable entry and nothing is replaced (compact_refuses_unresolvable). ")
 _rep("C06", "note", "compact is covered by the correspondence and the oracle, not by a theorem of its own;", "compact's decision and result are stated as theorems about Model.C06Compact, whose refusal gate is the `resolvable` predicate the correspondence compares and whose result is what the map oracle compares after reopening;")
 _rep("C19", "text", "(find_data_within_array). ", "(find_data_within_array), SFileGetFileInfo writes a value of n bytes only into a buffer of at least n bytes (info_within_buffer). ")
+_ins("C05", "text", "Tied to the code by",
+     "An archive header the reader accepts announces tables of at most a million 16-byte entries each, a sector shift of at most 20, and "
+     "tables inside the announced size plus 64 KiB (mpq_accepted_header_bounds, mpq_accepted_tables_inside: consequences of the header model "
+     "of C01, which is compared with MpqHeader::read on every mutated header). ")
 
